@@ -56,6 +56,7 @@ def run(tier):
            % (len(INVS), covered['entries'], covered['covered'], covered['policies']))
     # a peer configured exactly per a built-in server policy shows no failure in a standard audit
     scs, names = [], []
+    conformant = []
     for name, p in sorted(tb['policies'].items()):
         if not p['server']:
             continue
@@ -78,6 +79,13 @@ def run(tier):
                 cfg['gex'] = {'per_alg': {a: {'style': 'roundup', 'moduli': [b]} for a, b in p['dh_modulus_sizes'].items()}}
             scs.append({'argv': ['-n', '--skip-rate-test', rating.HOST], 'servers': {(rating.HOST, 22): cfg}})
             names.append(name)
+            conformant.append((name, cfg))
+            if keys == list(p['host_keys']) and any(t.startswith('rsa-') or t == 'ssh-rsa' for t in keys):
+                # the same server hanging up on the probe for its RSA key: what was never measured is not rated (and certainly not as a failure)
+                cfg2 = peers.ServerCfg(cfg)
+                cfg2['hostkeys'] = {t: b for t, b in hk.items() if not (t.startswith('rsa-') or t == 'ssh-rsa')}
+                scs.append({'argv': ['-n', '--skip-rate-test', rating.HOST], 'servers': {(rating.HOST, 22): cfg2}})
+                names.append(name + ' [RSA key withheld]')
     for name, sc, r in zip(names, scs, runner.run_many(scs)):
         ck.evaluated()
         if r.get('harness_error') or r.get('hang'):
@@ -91,6 +99,7 @@ def run(tier):
             ck.cov['traces_validated_against_impl'] += 1
     listing_leg(ck, tj)
     measured_leg(ck, tb)
+    after_weak_leg(ck, conformant)
     ck.sample({'invariants': INVS, 'entries': covered['entries'], 'matched_by_broken_primitive_rule': covered['covered'], 'policies': covered['policies']})
     ck.cov['rule'] = ('all entries of both rating databases, all built-in policies, the probe table and the DH tables of the working tree (exhaustive); distinct = database '
                       'entries + policies; plus one standard audit per built-in server policy')
@@ -98,6 +107,38 @@ def run(tier):
     ck.assumptions += ['the broken-primitive rule is applied to the SSH-2 database (the SSH-1 table rates the protocol as a whole)',
                        'TLC is a quantifier engine over extracted data here; the extractor is trusted to copy the tables']
     return ck.finish()
+
+
+def after_weak_leg(ck, conformant):
+    """The tables hold after use: a policy-conformant server audited in the same run *after* a weak one (small RSA key, small
+    group-exchange modulus, Terrapin-prone ciphers - everything a scan writes into the rating table) still shows no failure."""
+    from checks import multi
+    weak = peers.ServerCfg(banner=b'SSH-2.0-OpenSSH_7.4', kexinit={'kex': ['curve25519-sha256', 'diffie-hellman-group-exchange-sha256'], 'key': ['rsa-sha2-512', 'rsa-sha2-256', 'ssh-rsa', 'ssh-ed25519'],
+                                                                 'enc': ['chacha20-poly1305@openssh.com', 'aes256-gcm@openssh.com', 'aes128-ctr'],
+                                                                 'mac': ['hmac-sha2-256-etm@openssh.com', 'hmac-sha2-512-etm@openssh.com', 'umac-128-etm@openssh.com'], 'comp': ['none']},
+                           hostkeys={'rsa-sha2-512': peers.rsa_blob(1024), 'rsa-sha2-256': peers.rsa_blob(1024), 'ssh-rsa': peers.rsa_blob(1024), 'ssh-ed25519': peers.ed25519_blob()},
+                           gex={'style': 'roundup', 'moduli': [1024]})
+    pick = conformant[::max(1, len(conformant) // 6)][:6]
+    scs, meta = [], []
+    for name, cfg in pick:
+        for threads in (1, 2):
+            sc, labels = multi.scenario([('server', weak), ('server', cfg)], threads, (0, 1), json_out=False)
+            scs.append(sc)
+            meta.append((name, threads, labels))
+    for (name, threads, labels), sc, r in zip(meta, scs, runner.run_many(scs)):
+        ck.evaluated()
+        if r.get('harness_error') or r.get('hang'):
+            raise common.Machinery('target-list run failed: %r' % (r.get('harness_error') or 'hang'))
+        blocks = [b for b in multi.split_text(r['stdout']) if multi.label_of_block(b, labels) == labels[1]]
+        replay = {'policy': name, 'threads': threads, 'argv': sc['argv'], 'exit': r['exit'], 'stdout': r['stdout'][-3000:]}
+        if len(blocks) != 1:
+            ck.violation('policy-peer-not-audited after-weak-target', 'the conformant server listed after a weak one has %d result blocks' % len(blocks), replay)
+        elif '[fail]' in blocks[0]:
+            fails = [l for l in blocks[0].split('\n') if '[fail]' in l][:4]
+            ck.violation('policy-peer-shows-failure after-weak-target', 'a peer configured per %r, audited after a weak server in the same run (%d thread(s)), shows a failure: %r' % (name, threads, fails), replay)
+        else:
+            ck.cov['traces_validated_against_impl'] += 1
+            ck.nontrivial(('after-weak', name, threads))
 
 
 def measured_leg(ck, tb):
